@@ -1032,6 +1032,15 @@ def call_builtin(it, f, args, kwargs, node):
         for k, v in kwargs.items():
             d.obj.items[k] = v
         return d
+    if f == "dict.fromkeys":
+        val = args[1] if len(args) > 1 else VConst(None)
+        keys = it.concrete_items(args[0]) if args else None
+        if keys is not None and all(const_of(k)[0] for k in keys):
+            return it.new_dict({const_of(k)[1]: val for k in keys})
+        d = it.new_dict({})
+        d.obj.extra_unknown = True
+        d.obj.elem = val
+        return d
     if f in ("set", "frozenset"):
         u = VUnknown(f, "set")
         u.source = args[0] if args else None
